@@ -26,38 +26,56 @@ from .common import find_node, rule
 PROP = "C05"
 READY = False
 TECHNIQUE = (
-    "CFG dominance with a small propositional evaluation of the structural guard, abstract simulation of the "
-    "level-map operations over {<L, =L, >L}, linear normalisation of the level comparisons, save/restore pairing"
+    "CFG dominance plus a truth-table evaluation of the structural guard (through predicate helpers and the helper methods the heading code "
+    "was split into), reaching-definition sums for the heading level, abstract simulation of the level-map operations over the key classes "
+    "{<L, =L, >L}, grid evaluation of the warning condition, save/restore pairing of nested-render state"
 )
 
 META = {
     "explanation": (
-        "R1: in render_heading every statement that constructs nodes.section, calls update_section_level_state or stores "
-        "current_node is dominated by branch facts that imply 'current node is a document/section or equals the temp root of a "
-        "match_titles nested parse' (the facts are evaluated as a propositional formula over the atoms isinstance(current_node, C), "
-        "current_node == md_env[temp_root_node]); conversely the rubric construction is dominated by facts implying 'current node "
-        "is neither document nor section'; nobody else constructs nodes.section or calls the level-state update. "
-        "R2: from the rubric construction to the exit there is no write to the level map, no call of the level-state update and no "
-        "direct current_node store (also not in the directly called renderer methods; current_node_context is a save/restore pair); "
-        "the rubric carries level= the same quantity the section path registers, and it is attached exactly once on every path. "
-        "R3: update_section_level_state selects the parent as max over the open levels strictly below the new level, attaches the "
-        "section to that parent exactly once on every path, and its map operations, simulated over the key classes {<L, =L, >L}, "
-        "leave (ancestors kept, own level = new section, deeper levels dropped); the non-consecutive warning is emitted exactly "
-        "when level - parent_level >= 2, at most once per path; the map starts as {0: document}; writers of the map are a closed list. "
-        "R4: the context manager wrapped around _render_tokens in nested_render_text saves _heading_offset, md_env[temp_root_node] "
-        "and (by copy) _level_to_section before the yield and restores each to its saved name under the same guard; MockState.nested_parse "
-        "passes temp_root_node=<its node> only when match_titles and nobody else passes one; the include mock passes the heading-offset "
-        "option; the heading level is the tag digit plus the offset (thorough: markdown-it pushes heading_open with 'h'+str(level))."
+        "The 'heading code' is render_heading plus the private renderer methods only it (transitively) calls; every rule follows code into those helpers. "
+        "R1: each statement of the heading code that constructs nodes.section, calls update_section_level_state or stores current_node is reached only under branch "
+        "facts (of its own function and of every call site up to render_heading) that imply 'current node is a document/section or equals "
+        "md_env[temp_root_node]'. The facts are read as a propositional formula over the atoms isinstance(current_node, C) (with the docutils class hierarchy "
+        "read from the parsed sibling source), current_node ==/is temp root, 'a temp root is set'; single-assignment locals and boolean predicate helpers "
+        "(`return <test>`) are expanded; implications are decided by truth table. Conversely the rubric branch is reached only under 'neither document nor section'. "
+        "Nobody outside the heading code constructs nodes.section in the rendering modules or calls the level-state update. "
+        "R2: from the rubric construction (in render_heading or a helper) to the exit there is no write to the level map, no level-state update and no direct "
+        "current_node store, also not in the directly called renderer methods; current_node_context saves current_node before its yield and restores the saved "
+        "name on every normal path after it (plain or try/finally); the rubric's level= and the level passed to the level-state update are the same signed sum "
+        "of terms (reaching definitions, through helper parameters and augmented assignments); the rubric is attached to current_node exactly once on every path. "
+        "R3 (update_section_level_state): parent = max over the open levels strictly below the new level; the section is attached exactly once on every path to "
+        "map[parent]; no use of the level parameter is reached by a definition that replaces it by another linear quantity; the map operations (map[level]=section, "
+        "filtering dict comprehension, removal loops over a key range or over a copy of the keys) are simulated over the key classes {<L, =L, >L} and must leave "
+        "(ancestors kept, own level = new section, deeper levels dropped) - range bounds are level+c, constants or max(open levels)+c, and a constant bound only "
+        "covers the deeper levels if the heading level is statically bounded, which it is not once the heading offset is added; the MD_HEADING_NON_CONSECUTIVE "
+        "warning (one or several sites) is emitted at most once per path and, evaluated on the grid parent 0..8 x skip 1..12, exactly when skip >= 2 - leaves of "
+        "its condition that read renderer state changed during the render are free booleans and the verdict must hold for every value (a memo of reported skips "
+        "is therefore a violation); the map starts as {0: document} (in setup_render or a helper only it calls); every other change of the map during a render "
+        "must restore a value read from it in the same function or be bracketed by its own save(copy)/restore. "
+        "R4: the context manager around _render_tokens in nested_render_text saves _heading_offset, md_env[temp_root_node] and (by copy) _level_to_section before "
+        "the yield and restores each to its saved name under the same guard (plain, try/finally, or += / -= inverse update); every other change of the offset or "
+        "the temp root during a render must be such a pair itself; a non-None temp_root_node is passed only as `<node> if <flag> else None` where <flag> is traced "
+        "to the match_titles parameter of a docutils-state nested_parse and <node> is the argument of the enclosing current_node_context - any other caller "
+        "passing a temp root is a violation; the include mock passes the heading-offset option; the level registered by the section path is exactly tag digit + "
+        "heading offset (thorough: markdown-it pushes heading_open with 'h'+str(level))."
     ),
     "not_decided": (
-        "the resulting nesting for all level sequences as a computed value; what the inline renderers reached through render_children do; "
-        "third-party directives that nested-parse into a nodes.section container; behaviour of sections created under a match_titles temp root "
-        "(they are attached to the outer open section, see report); the heading offset is replaced, not accumulated, by nested renders"
+        "the resulting nesting for all level sequences as a computed value; what the inline renderers reached through render_children do; third-party directives "
+        "that nested-parse into a nodes.section container; where sections created under a match_titles temp root are attached (to the outer open section selected "
+        "from the level map, not to that node - by design of the code, listed as evidence); that the heading offset is replaced, not accumulated, by nested renders; "
+        "warning conditions that differ only outside the grid (parent > 8, skip > 12); extra warning conditions on configuration values (answered ANALYSIS-ERROR)"
     ),
-    "trusted_base": ["CPython ast", "mystsa CFG/dominators", "markdown-it sets heading tags to 'h'+digit (re-read in the thorough tier)"],
+    "trusted_base": [
+        "CPython ast",
+        "mystsa CFG/dominators/post-dominators",
+        "docutils/nodes.py class statements (parsed, for the class hierarchy)",
+        "markdown-it sets heading tags to 'h'+digit (re-read in the thorough tier)",
+    ],
     "assumptions": [
         "docutils node classes do not override __eq__ (current_node == temp_root is identity)",
-        "heading-offset is validated as a non-negative int by the include mock's option_spec",
+        "heading-offset is validated as a non-negative int by the include mock's option_spec, so heading levels are unbounded above but >= 1",
+        "a renderer attribute written by a non-initialiser function can differ between two headings of one document (used to call a warning condition history-dependent)",
     ],
 }
 
@@ -249,11 +267,29 @@ A_HASROOT = ("hasroot",)
 class Guard:
     """Turns branch tests of one function into formulas over atoms and decides implications by truth table."""
 
-    def __init__(self, fi: FunctionInfo, corpus: Corpus | None = None):
+    def __init__(self, fi: FunctionInfo, corpus: Corpus | None = None, shared: "Guard | None" = None):
         self.fi = fi
-        self.opaque: dict[tuple, ast.expr] = {}
+        self.opaque: dict[tuple, ast.expr] = shared.opaque if shared is not None else {}
         self.corpus = corpus
-        self._supers: dict[str, set[str]] = {}
+        self._supers: dict[str, set[str]] = shared._supers if shared is not None else {}
+
+    def _predicate_helper(self, e: ast.Call):
+        """``self.m()`` where m (one implementation) is local assignments followed by ``return <test>``: the formula of <test>."""
+        f = e.func
+        if self.corpus is None or e.args or e.keywords or not (isinstance(f, ast.Attribute) and isinstance(f.value, ast.Name) and f.value.id == "self") or self.fi.module.name != self.corpus.mod(BASE).name:
+            return None
+        impls = self.corpus.method_impls(self.corpus.mod(BASE).cls(RENDERER), f.attr)
+        if len(impls) != 1:
+            return None
+        h = impls[0]
+        body = [st for st in h.node.body if not (isinstance(st, ast.Expr) and isinstance(st.value, ast.Constant))]
+        if not body or not isinstance(body[-1], ast.Return) or body[-1].value is None:
+            return None
+        if not all(isinstance(st, (ast.Assign, ast.AnnAssign)) and all(isinstance(t, ast.Name) for t in store_targets(st)) for st in body[:-1]):
+            return None
+        if sum(isinstance(n, ast.Return) for n in h.local_nodes()) != 1:
+            return None
+        return Guard(h, self.corpus, shared=self).build(body[-1].value, 1)
 
     def supers(self, cls: str) -> set[str]:
         """Proper superclasses of a docutils.nodes class, read from the (parsed, not imported) sibling source."""
@@ -284,6 +320,10 @@ class Guard:
             if v is not None and self._def_still_valid(e):
                 return self.build(v, depth + 1)
             return self._opaque(e)
+        if isinstance(e, ast.Call) and isinstance(e.func, ast.Attribute):
+            ph = self._predicate_helper(e) if depth < 6 else None
+            if ph is not None:
+                return ph
         if isinstance(e, ast.Call) and dotted(e.func) == "isinstance" and len(e.args) == 2 and not e.keywords:
             if is_self_attr(e.args[0], "current_node"):
                 classes = isinstance_classes(e.args[1], fi)
@@ -464,6 +504,145 @@ def _callers_by_name(corpus: Corpus, name: str) -> list[tuple[FunctionInfo, ast.
 
 
 # ---------------------------------------------------------------------------
+# the heading code: render_heading plus the private helper methods only it (transitively) calls
+
+
+class HeadingCode:
+    def __init__(self, corpus: Corpus, base, rh: FunctionInfo, upd: FunctionInfo):
+        self.corpus, self.base, self.rh, self.upd = corpus, base, rh, upd
+        self.rcls = base.cls(RENDERER)
+        self.funcs: dict[str, FunctionInfo] = {rh.fq: rh}
+        self.sites: dict[str, list[tuple[FunctionInfo, ast.Call]]] = {}
+        self._callers: dict[str, list] = {}
+        for _round in range(3):
+            grown = False
+            for f in list(self.funcs.values()):
+                for c in f.local_nodes():
+                    if not (isinstance(c, ast.Call) and isinstance(c.func, ast.Attribute) and isinstance(c.func.value, ast.Name) and c.func.value.id == "self"):
+                        continue
+                    impls = corpus.method_impls(self.rcls, c.func.attr)
+                    if len(impls) != 1 or impls[0].fq in self.funcs or impls[0].fq == upd.fq or impls[0].is_generator():
+                        continue
+                    callers = self.callers(c.func.attr)
+                    if callers and all(cf.fq in self.funcs for cf, _ in callers):
+                        self.funcs[impls[0].fq] = impls[0]
+                        self.sites[impls[0].fq] = callers
+                        grown = True
+            if not grown:
+                break
+        self.g0 = Guard(rh, corpus)
+        self._guards: dict[str, Guard] = {rh.fq: self.g0}
+
+    def callers(self, name: str):
+        if name not in self._callers:
+            self._callers[name] = _callers_by_name(self.corpus, name)
+        return self._callers[name]
+
+    def guard(self, f: FunctionInfo) -> Guard:
+        if f.fq not in self._guards:
+            self._guards[f.fq] = Guard(f, self.corpus, shared=self.g0)
+        return self._guards[f.fq]
+
+    def premises(self, f: FunctionInfo, st, depth: int = 0) -> list:
+        """One formula per call chain from render_heading: everything known to hold when ``st`` of ``f`` executes."""
+        local = self.guard(f).conj(get_cfg(f).guards(st))
+        if f.fq == self.rh.fq:
+            return [local]
+        if depth > 3:
+            raise Unsupported("helper chain too deep")
+        out = []
+        for cf, call in self.sites.get(f.fq, []):
+            for p in self.premises(cf, get_cfg(cf).stmt_of(call), depth + 1):
+                out.append(("and", [local, p]))
+        return out
+
+    def find(self, pred) -> list[tuple[FunctionInfo, ast.AST]]:
+        out = []
+        for f in self.funcs.values():
+            for n in f.local_nodes():
+                if pred(f, n):
+                    out.append((f, n))
+        return out
+
+    def update_call(self) -> tuple[FunctionInfo, ast.Call]:
+        calls = self.find(lambda f, n: isinstance(n, ast.Call) and isinstance(n.func, ast.Attribute) and n.func.attr == UPDATE)
+        if len(calls) != 1 or None in _update_args(calls[0][1]) or any(isinstance(a, ast.Starred) for a in calls[0][1].args):
+            raise Unsupported(f"the heading code calls the level-state update {len(calls)} time(s) / not as (section, level)")
+        return calls[0]
+
+    # -- symbolic value of a local as a signed sum of terms (reaching definitions, through helper parameters) ------
+    def reaching(self, f: FunctionInfo, name: str, at) -> tuple[set, bool]:
+        cfg = get_cfg(f)
+        defs = {cfg.stmt_of(d) for d in name_assignments(f, name)}
+        seen, found, entry = set(), set(), False
+        work = list(cfg.pred.get(at, []))
+        while work:
+            n = work.pop()
+            if n in seen:
+                continue
+            seen.add(n)
+            if n in defs:
+                found.add(n)
+                continue
+            if n == ENTRY:
+                entry = True
+                continue
+            work.extend(cfg.pred.get(n, []))
+        return found, entry
+
+    def terms(self, e: ast.expr, f: FunctionInfo, at, depth: int = 0) -> list[tuple[int, str]]:
+        """``e`` evaluated at CFG statement ``at`` of ``f`` as a sorted signed sum, e.g. [(1, 'TAG'), (1, 'OFFSET')]."""
+        if depth > 12:
+            raise Unsupported("level expression too deep")
+        if isinstance(e, ast.BinOp) and isinstance(e.op, (ast.Add, ast.Sub)):
+            sgn = 1 if isinstance(e.op, ast.Add) else -1
+            return sorted(self.terms(e.left, f, at, depth + 1) + [(sgn * s_, t) for s_, t in self.terms(e.right, f, at, depth + 1)])
+        if _is_tag_digit(e):
+            return [(1, "TAG")]
+        if is_self_attr(e, OFFSET):
+            return [(1, "OFFSET")]
+        if isinstance(e, ast.Name):
+            found, entry = self.reaching(f, e.id, at)
+            if not found:
+                if e.id in f.params and f.fq != self.rh.fq:
+                    sites = self.sites.get(f.fq, [])
+                    if len(sites) != 1:
+                        raise Unsupported(f"parameter `{e.id}` of {f.qualname} has {len(sites)} call sites")
+                    cf, call = sites[0]
+                    idx = f.params.index(e.id) - (1 if f.params and f.params[0] == "self" else 0)
+                    arg = call.args[idx] if 0 <= idx < len(call.args) and not any(isinstance(a, ast.Starred) for a in call.args) else kwarg(call, e.id)
+                    if arg is None:
+                        raise Unsupported(f"no argument for parameter `{e.id}` of {f.qualname}")
+                    return self.terms(arg, cf, get_cfg(cf).stmt_of(call), depth + 1)
+                return [(1, f"{e.id}")]
+            if len(found) > 1 or entry:
+                raise Unsupported(f"`{e.id}` merges several definitions at {f.module.site(at)}")
+            d = next(iter(found))
+            if isinstance(d, ast.Assign) and len(d.targets) == 1 and isinstance(d.targets[0], ast.Name):
+                return self.terms(d.value, f, d, depth + 1)
+            if isinstance(d, ast.AnnAssign) and d.value is not None:
+                return self.terms(d.value, f, d, depth + 1)
+            if isinstance(d, ast.AugAssign) and isinstance(d.op, (ast.Add, ast.Sub)) and isinstance(d.target, ast.Name):
+                sgn = 1 if isinstance(d.op, ast.Add) else -1
+                return sorted(self.terms(d.target, f, d, depth + 1) + [(sgn * s_, t) for s_, t in self.terms(d.value, f, d, depth + 1)])
+            raise Unsupported(f"definition `{short(d, 40)}` of `{e.id}` not understood")
+        return [(1, unparse(e))]
+
+
+def terms_text(ts: list[tuple[int, str]]) -> str:
+    names = {"TAG": "int(token.tag[1])", "OFFSET": "self._heading_offset"}
+    out = ""
+    for sgn, t in ts:
+        out += (" + " if sgn > 0 else " - ") + names.get(t, t)
+    return out[3:] if out.startswith(" + ") else out.strip()
+
+
+def _heading_code(corpus: Corpus) -> HeadingCode:
+    base, rh, upd = _renderer_funcs(corpus)
+    return corpus.cache("c05-heading-code", lambda: HeadingCode(corpus, base, rh, upd))
+
+
+# ---------------------------------------------------------------------------
 # R1
 
 
@@ -471,85 +650,81 @@ def _callers_by_name(corpus: Corpus, name: str) -> list[tuple[FunctionInfo, ast.
 def r1_context_guard(corpus: Corpus, rep: Report, tier: str):
     rep.rule("C05.R1", "section construction, level-state update and current_node stores of render_heading lie behind the structural guard; the rubric branch only outside document/section")
     base, rh, upd = _renderer_funcs(corpus)
-    rep.saw_function(rh.fq)
-    cfg = get_cfg(rh)
-    g = Guard(rh, corpus)
+    hc = _heading_code(corpus)
+    g = hc.g0
     rcls = base.cls(RENDERER)
+    for f in hc.funcs.values():
+        rep.saw_function(f.fq)
     for name in ("render_heading", UPDATE, "nested_render_text", "current_node_context", "setup_render"):
         impls = corpus.method_impls(rcls, name)
         if len(impls) != 1:
             raise Unsupported(f"{name} has {len(impls)} implementations (a renderer subclass overrides it): the rules read the base implementation only")
 
-    # S-statements: (kind, stmt, node)
-    s_stmts: list[tuple[str, ast.AST, ast.AST]] = []
-    helper_ctor: list[FunctionInfo] = []
+    # S-statements of the heading code (render_heading and the helpers only it calls): (kind, function, node)
+    s_stmts: list[tuple[str, FunctionInfo, ast.AST]] = []
     for fi in _all_plain_functions(corpus):
         for n in fi.local_nodes():
             if isinstance(n, ast.Call) and resolves_to(n, fi, SECTION):
                 rep.saw_call(fi.module.site(n))
-                if fi.fq == rh.fq:
-                    s_stmts.append(("constructs nodes.section", cfg.stmt_of(n), n))
+                if fi.fq in hc.funcs:
+                    s_stmts.append(("constructs nodes.section", fi, n))
                 elif _in_render_scope(fi):
-                    helper_ctor.append(fi)
+                    rep.error("C05.R1", f"nodes.section is constructed in {fi.fq}, which is not render_heading or a helper called only from it: not understood")
                 else:
                     rep.listed("C05.R1", f"{fi.fq}|constructs nodes.section", fi.module.site(n), "outside the rendering modules: not judged")
-    for fi, c in _callers_by_name(corpus, UPDATE):
+    for fi, c in hc.callers(UPDATE):
         rep.saw_call(fi.module.site(c))
-        if fi.fq == rh.fq:
-            s_stmts.append((f"calls {UPDATE}", cfg.stmt_of(c), c))
+        if fi.fq in hc.funcs:
+            s_stmts.append((f"calls {UPDATE}", fi, c))
         else:
-            rep.error("C05.R1", f"{UPDATE} is called from {fi.fq} ({fi.module.site(c)}): a caller other than render_heading is not understood")
-    for h in helper_ctor:
-        sites = [(fi, c) for fi, c in _callers_by_name(corpus, h.name)]
-        if h.cls is None or not sites or any(fi.fq != rh.fq for fi, _ in sites):
-            rep.error("C05.R1", f"nodes.section is constructed in {h.fq}, which is not a helper called only from render_heading: not understood")
-        else:
-            for fi, c in sites:
-                s_stmts.append((f"calls {h.name} (constructs nodes.section)", cfg.stmt_of(c), c))
-    for n in rebinds_attr(rh.local_nodes(), "current_node"):
-        s_stmts.append(("stores current_node", cfg.stmt_of(n), n))
+            rep.error("C05.R1", f"{UPDATE} is called from {fi.fq} ({fi.module.site(c)}): a caller outside the heading code is not understood")
+    for f in hc.funcs.values():
+        for n in rebinds_attr(f.local_nodes(), "current_node"):
+            s_stmts.append(("stores current_node", f, n))
 
     for need in ("constructs nodes.section", f"calls {UPDATE}"):
         if not any(need in k for k, _, _ in s_stmts):
             raise Unsupported(f"render_heading: no statement that {need} (moved to an idiom this rule does not know)")
 
-    for kind, st, node in s_stmts:
-        k = f"{rh.fq}|{kind}|{short(node, 60)}"
-        site = base.site(node)
-        prem = g.conj(cfg.guards(st))
-        cex = g.implies(prem, STRUCT_OR_ROOT)
-        if cex is None:
-            rep.ok("C05.R1", k, site, "dominated by: current node is document/section or the match_titles temp root")
-            continue
-        unk = g.unknown_idiom(prem)
-        if unk:
-            rep.error("C05.R1", f"{site}: guard of `{short(node, 50)}` contains `{unk}`, which this rule cannot read as a structural test")
-            continue
-        rep.violation(
-            "C05.R1",
-            k,
-            site,
-            f"render_heading {kind} on a path where the structural guard does not hold ({describe_env(cex) or 'no guard at all'}): "
+    def judge(k: str, site: str, label: str, prems: list, goal, ok_txt: str, bad_txt) -> None:
+        if not prems:
+            raise Unsupported(f"no call chain from render_heading to {label}")
+        for prem in prems:
+            cex = g.implies(prem, goal)
+            if cex is None:
+                continue
+            unk = g.unknown_idiom(prem)
+            if unk:
+                rep.error("C05.R1", f"{site}: guard of {label} contains `{unk}`, which this rule cannot read as a structural test")
+            else:
+                rep.violation("C05.R1", k, site, bad_txt(cex))
+            return
+        rep.ok("C05.R1", k, site, ok_txt)
+
+    for kind, f, node in s_stmts:
+        judge(
+            f"{f.fq}|{kind}|{short(node, 60)}",
+            f.module.site(node),
+            f"`{short(node, 50)}`",
+            hc.premises(f, get_cfg(f).stmt_of(node)),
+            STRUCT_OR_ROOT,
+            "dominated by: current node is document/section or the match_titles temp root",
+            lambda cex, kind=kind: f"render_heading {kind} on a path where the structural guard does not hold ({describe_env(cex) or 'no guard at all'}): "
             "a heading inside a container opens a section / disturbs the section state",
         )
 
     # converse: the rubric branch is only taken outside document/section
     rs = _rubric_site(corpus, base, rh)
-    for n, st in [(rs.rcall if rs.hcall is None else rs.hcall, rs.entry)]:
-        k = f"{rh.fq}|rubric branch only outside document/section|{short(n, 50)}"
-        prem = g.conj(cfg.guards(st))
-        cex = g.implies(prem, NOT_STRUCT)
-        if cex is None:
-            rep.ok("C05.R1", k, base.site(n), "dominated by: current node is neither document nor section")
-        elif g.unknown_idiom(prem):
-            rep.error("C05.R1", f"{base.site(n)}: guard of the rubric branch contains `{g.unknown_idiom(prem)}`, not readable as a structural test")
-        else:
-            rep.violation(
-                "C05.R1",
-                k,
-                base.site(n),
-                f"the rubric branch can be taken at document level ({describe_env(cex) or 'unguarded'}): a heading directly under the document or a section becomes a rubric instead of a section",
-            )
+    n = rs.rcall if rs.hcall is None else rs.hcall
+    judge(
+        f"{rh.fq}|rubric branch only outside document/section|{short(n, 50)}",
+        base.site(n),
+        "the rubric branch",
+        hc.premises(rh, rs.entry),
+        NOT_STRUCT,
+        "dominated by: current node is neither document nor section",
+        lambda cex: f"the rubric branch can be taken at document level ({describe_env(cex) or 'unguarded'}): a heading directly under the document or a section becomes a rubric instead of a section",
+    )
     # evidence only: the one deliberate exception to "a heading inside a container never opens a section"
     rep.listed(
         "C05.R1",
@@ -566,30 +741,35 @@ def r1_context_guard(corpus: Corpus, rep: Report, tier: str):
 
 
 def _cm_restores(fi: FunctionInfo, attr: str) -> bool:
-    """``fi`` is a @contextmanager generator that saves ``self.<attr>`` before its single yield and restores it after."""
+    """``fi`` is a @contextmanager generator that saves ``self.<attr>`` before its single yield and restores the saved
+    name on every normal path after it (plain or try/finally layout)."""
     if not fi.is_generator() or not any(d.endswith("contextmanager") for d in fi.decorators()):
         return False
-    body = fi.node.body
-    yi = [i for i, s in enumerate(body) if isinstance(s, ast.Expr) and isinstance(s.value, ast.Yield)]
-    if len(yi) != 1 or sum(isinstance(n, (ast.Yield, ast.YieldFrom)) for n in fi.local_nodes()) != 1:
+    ys = [n for n in fi.local_nodes() if isinstance(n, (ast.Yield, ast.YieldFrom))]
+    if len(ys) != 1:
         return False
-    pre, post = body[: yi[0]], body[yi[0] + 1 :]
-    saved = None
-    for s in pre:
-        if isinstance(s, ast.Assign) and len(s.targets) == 1 and isinstance(s.targets[0], ast.Name) and is_self_attr(s.value, attr):
-            saved = s.targets[0].id
-    if saved is None or len(name_assignments(fi, saved)) != 1:
+    cfg = get_cfg(fi)
+    yst = cfg.stmt_of(ys[0])
+    stmts = [s for s in fi.local_nodes() if isinstance(s, ast.stmt) and s in cfg.succ]
+    after = cfg.reachable_from(yst)
+    pre = [s for s in stmts if s is not yst and s not in after and yst in cfg.reachable_from(s)]
+    post = [s for s in stmts if s is not yst and s in after]
+    if set(pre) & set(post):
         return False
-    # the save must precede every pre-yield store of the attribute
-    seen_save = False
+    saves = [s for s in pre if isinstance(s, ast.Assign) and len(s.targets) == 1 and isinstance(s.targets[0], ast.Name) and is_self_attr(s.value, attr) and not cfg.guards(s)]
+    if not saves:
+        return False
+    save = saves[-1]
+    saved = save.targets[0].id
+    if len(name_assignments(fi, saved)) != 1:
+        return False
+    # every pre-yield store of the attribute comes after the save
     for s in pre:
-        if isinstance(s, ast.Assign) and isinstance(s.targets[0], ast.Name) and s.targets[0].id == saved:
-            seen_save = True
-        elif rebinds_attr([n for n in ast.walk(s)], attr) and not seen_save:
+        if s is not save and rebinds_attr(own_nodes(s), attr) and not cfg.dominates(save, s):
             return False
     restores = [s for s in post if isinstance(s, ast.Assign) and len(s.targets) == 1 and is_self_attr(s.targets[0], attr) and isinstance(s.value, ast.Name) and s.value.id == saved]
-    others = [s for s in post if s not in restores and rebinds_attr(list(ast.walk(s)), attr)]
-    return len(restores) == 1 and not others
+    others = [s for s in post if s not in restores and rebinds_attr(own_nodes(s), attr)]
+    return len(restores) == 1 and not others and cfg.postdominates(restores[0], yst)
 
 
 def _attach_events(st, var: str, fi: FunctionInfo) -> tuple[int, list[str]]:
@@ -758,22 +938,26 @@ def r2_rubric_path_purity(corpus: Corpus, rep: Report, tier: str):
                 rep.ok("C05.R2", k, impl.site(), "saves and restores current_node around the yield" if cn else "no write to level map / current_node")
 
     # (c) the rubric records the level: the same quantity the section path registers
-    ucalls = method_calls(rh.local_nodes(), UPDATE)
+    hc = _heading_code(corpus)
+    uf, ucall = hc.update_call()
+    sec_terms = hc.terms(_update_args(ucall)[1], uf, get_cfg(uf).stmt_of(ucall))
     lv = kwarg(rcall, "level")
     k = f"{rh.fq}|rubric level= is the heading level"
-    if len(ucalls) != 1 or _update_args(ucalls[0])[1] is None:
-        raise Unsupported("render_heading: the level argument of the level-state update was not found")
-    sec_level = _update_args(ucalls[0])[1]
-    if isinstance(lv, ast.Name) and rs.hcall is not None:
-        lv = rs.argument_for(lv.id)
-        if lv is None:
-            raise Unsupported("level= of the rubric is not a parameter the helper receives from render_heading")
     if lv is None:
-        rep.violation("C05.R2", k, base.site(rcall), "the rubric is built without level=: the nested heading does not record its level")
-    elif unparse(lv) == unparse(sec_level) and (not isinstance(lv, ast.Name) or len(name_assignments(rh, lv.id)) == 1):
-        rep.ok("C05.R2", k, base.site(rcall), f"level={unparse(lv)}, the value also passed to {UPDATE}")
+        rep.violation("C05.R2", k, rmod.site(rcall), "the rubric is built without level=: the nested heading does not record its level")
     else:
-        rep.violation("C05.R2", k, base.site(rcall), f"the rubric records level={unparse(lv)} but the section path registers {unparse(sec_level)}: the recorded level is not the heading's level")
+        if rs.fi.fq not in hc.funcs:
+            raise Unsupported("the rubric helper is not part of the heading code")
+        rub_terms = hc.terms(lv, rs.fi, rst)
+        if rub_terms == sec_terms:
+            rep.ok("C05.R2", k, rmod.site(rcall), f"level={unparse(lv)} = {terms_text(rub_terms)}, the value also passed to {UPDATE}")
+        else:
+            rep.violation(
+                "C05.R2",
+                k,
+                rmod.site(rcall),
+                f"the rubric records level={unparse(lv)} = {terms_text(rub_terms)} but the section path registers {terms_text(sec_terms)}: the recorded level is not the heading's level",
+            )
 
     # (d) attached exactly once on every path to the exit
     unknown: list[str] = []
@@ -838,6 +1022,10 @@ def key_rel(test: ast.expr, key: str, level: str):
     return None
 
 
+# resolver of single-assignment locals inside linear forms (set by R3 for the function it reads)
+LIN_LOCALS = None
+
+
 def lin(e: ast.expr, level: str, par: str):
     """Linear form (a, b, c) = a*level + b*parent + c, or None."""
     if isinstance(e, ast.Constant) and isinstance(e.value, int) and not isinstance(e.value, bool):
@@ -847,7 +1035,8 @@ def lin(e: ast.expr, level: str, par: str):
             return (1, 0, 0)
         if e.id == par:
             return (0, 1, 0)
-        return None
+        d = LIN_LOCALS(e.id) if LIN_LOCALS is not None else None
+        return lin(d, level, par) if d is not None else None
     if isinstance(e, ast.UnaryOp) and isinstance(e.op, ast.USub):
         x = lin(e.operand, level, par)
         return None if x is None else (-x[0], -x[1], -x[2])
@@ -944,17 +1133,16 @@ def _is_tag_digit(e: ast.AST) -> bool:
     )
 
 
-def _level_bound(rh: FunctionInfo, ucall: ast.Call) -> int | None:
+def _level_bound(corpus: Corpus) -> int | None:
     """Static upper bound of a heading level: 6 without an offset, None (unbounded) when the offset is added."""
-    lvl = _update_args(ucall)[1]
-    ldef = single_def(rh, lvl.id) if isinstance(lvl, ast.Name) else lvl
-    if ldef is None:
-        raise Unsupported("heading level of render_heading is not a single-assignment local")
-    if any(is_self_attr(n, OFFSET) for n in ast.walk(ldef)):
+    hc = _heading_code(corpus)
+    uf, ucall = hc.update_call()
+    ts = hc.terms(_update_args(ucall)[1], uf, get_cfg(uf).stmt_of(ucall))
+    if any(t == "OFFSET" for _s, t in ts):
         return None
-    if _is_tag_digit(ldef):
+    if ts == [(1, "TAG")]:
         return 6
-    raise Unsupported(f"cannot bound the heading level `{short(ldef, 40)}`")
+    raise Unsupported(f"cannot bound the heading level `{terms_text(ts)}`")
 
 
 def _update_args(call: ast.Call) -> tuple[ast.expr | None, ast.expr | None]:
@@ -1151,6 +1339,8 @@ def _simulate(ops, level_bound) -> tuple[dict[str, str], list[str]]:
 @rule("C05.R3")
 def r3_ordering_roles(corpus: Corpus, rep: Report, tier: str):
     rep.rule("C05.R3", "level-state update: parent = max over open levels strictly below; attach once to it; map ends as (ancestors, own=new, deeper dropped); warning iff skip >= 2, at most once; map rooted at {0: document}")
+    global LIN_LOCALS
+    LIN_LOCALS = None
     base, rh, upd = _renderer_funcs(corpus)
     rep.saw_function(upd.fq)
     cfg = get_cfg(upd)
@@ -1158,21 +1348,22 @@ def r3_ordering_roles(corpus: Corpus, rep: Report, tier: str):
     if len(params) != 3 or params[0] != "self":
         raise Unsupported(f"{UPDATE} signature is {params}, expected (self, section, level)")
     p_sec, p_lvl = params[1], params[2]
-    # the roles of the two parameters are confirmed at the call site in render_heading
-    ucalls = method_calls(rh.local_nodes(), UPDATE)
-    if len(ucalls) != 1 or None in _update_args(ucalls[0]) or any(isinstance(a, ast.Starred) for a in ucalls[0].args):
-        raise Unsupported("render_heading does not call the level-state update once with (section, level)")
-    a_sec, a_lvl = _update_args(ucalls[0])
-    sec_def = single_def(rh, a_sec.id) if isinstance(a_sec, ast.Name) else a_sec
+    # the roles of the two parameters are confirmed at the call site in the heading code
+    hc = _heading_code(corpus)
+    uf, ucall = hc.update_call()
+    a_sec, a_lvl = _update_args(ucall)
+    sec_def = a_sec
+    if isinstance(a_sec, ast.Name):
+        found, entry = hc.reaching(uf, a_sec.id, get_cfg(uf).stmt_of(ucall))
+        d = next(iter(found)) if len(found) == 1 and not entry else None
+        sec_def = d.value if isinstance(d, (ast.Assign, ast.AnnAssign)) else None
     k = f"{rh.fq}|{UPDATE}(section, level) argument roles"
-    if isinstance(sec_def, ast.Call) and (resolves_to(sec_def, rh, SECTION) or _helper_constructs(corpus, base, sec_def, SECTION)):
-        rep.ok("C05.R3", k, base.site(ucalls[0]), f"section argument is the constructed section, level argument `{unparse(a_lvl)}`")
+    if isinstance(sec_def, ast.Call) and (resolves_to(sec_def, uf, SECTION) or _helper_constructs(corpus, base, sec_def, SECTION)):
+        rep.ok("C05.R3", k, uf.module.site(ucall), f"section argument is the constructed section, level argument `{unparse(a_lvl)}`")
     else:
         raise Unsupported("section argument of the level-state update is not traced to the nodes.section constructed for this heading")
-    for p in (p_sec, p_lvl):
-        if name_assignments(upd, p):
-            raise Unsupported(f"parameter `{p}` of {UPDATE} is rebound: its role is no longer fixed")
-
+    if name_assignments(upd, p_sec):
+        raise Unsupported(f"parameter `{p_sec}` of {UPDATE} is rebound: its role is no longer fixed")
     # (a) parent selection
     sel = [
         n
@@ -1184,6 +1375,15 @@ def r3_ordering_roles(corpus: Corpus, rep: Report, tier: str):
         raise Unsupported(f"parent level selection: expected one `x = max(<comprehension over the level map>)`, found {len(sel)}")
     sel = sel[0]
     par = sel.targets[0].id
+    budget = [200]
+
+    def _resolve_local(name: str):
+        budget[0] -= 1
+        if name in (p_lvl, par, p_sec) or budget[0] < 0:
+            return None
+        return single_def(upd, name)
+
+    LIN_LOCALS = _resolve_local
     if len(name_assignments(upd, par)) != 1:
         raise Unsupported(f"`{par}` is bound more than once")
     comp = sel.value.args[0]
@@ -1205,6 +1405,32 @@ def r3_ordering_roles(corpus: Corpus, rep: Report, tier: str):
         rep.violation("C05.R3", k, site, f"open levels are filtered with `open {REL_TXT[rel]} new`: the parent must be strictly lower (`<`), otherwise a heading becomes the child of its own sibling / of a deeper heading")
     else:
         rep.ok("C05.R3", k, site, "max over open levels strictly below the new level")
+
+    # (a') the heading level keeps its role: no use of `level` is reached by a definition that replaces it by another quantity
+    for d in name_assignments(upd, p_lvl):
+        dst = cfg.stmt_of(d)
+        if isinstance(d, ast.Assign) and len(d.targets) == 1 and isinstance(d.targets[0], ast.Name):
+            value = d.value
+        elif isinstance(d, ast.AugAssign) and isinstance(d.op, (ast.Add, ast.Sub)):
+            value = ast.BinOp(left=ast.Name(id=p_lvl, ctx=ast.Load()), op=d.op, right=d.value)
+        else:
+            raise Unsupported(f"parameter `{p_lvl}` of {UPDATE} is rebound by `{short(d, 40)}`: its role is no longer fixed")
+        form = lin(value, p_lvl, par)
+        if form is None:
+            raise Unsupported(f"`{short(d, 50)}` rebinds the heading level to something this rule cannot relate to level / parent level")
+        uses = [n for n in upd.local_nodes() if isinstance(n, ast.Name) and n.id == p_lvl and isinstance(n.ctx, ast.Load) and dst in hc.reaching(upd, p_lvl, cfg.stmt_of(n))[0]]
+        kk = f"{upd.fq}|heading level replaced before use|{short(d, 50)}"
+        if form == (1, 0, 0) or not uses:
+            rep.ok("C05.R3", kk, base.site(d), "identity / never used afterwards")
+        else:
+            first = min(uses, key=lambda n: (n.lineno, n.col_offset))
+            rep.violation(
+                "C05.R3",
+                kk,
+                base.site(d),
+                f"`{short(d, 50)}` replaces the heading level before `{short(cfg.stmt_of(first), 60)}`: the open-section map is keyed/compared by {unparse(value)} instead of the heading's level, "
+                "so after a level-skipping heading it no longer reflects the real heading levels (a later heading of the skipped level nests under a sibling or warns wrongly)",
+            )
 
     # (b) attached once to the selected parent on every path
     attaches = []
@@ -1243,7 +1469,7 @@ def r3_ordering_roles(corpus: Corpus, rep: Report, tier: str):
 
     # (c) abstract simulation of the map operations over key classes (lt, eq, gt)
     ops = _map_ops(upd, cfg, p_sec, p_lvl)
-    state, reasons = _simulate(ops, lambda: _level_bound(rh, ucalls[0]))
+    state, reasons = _simulate(ops, lambda: _level_bound(corpus))
     k = f"{upd.fq}|level map after the update"
     site = base.site(ops[-1][2]) if ops else upd.site()
     problems = []
@@ -1525,6 +1751,32 @@ def _judge_foreign_writers(corpus: Corpus, rep: Report, rule_id: str, cell: str,
 
 
 
+def _is_match_titles_flag(corpus: Corpus, fi: FunctionInfo, name: str, depth: int = 0) -> bool:
+    """``name`` is the match_titles parameter of a docutils-state ``nested_parse`` method, or a parameter that only
+    receives such a flag (or a constant False/None) from its callers."""
+    if name not in fi.params or name_assignments(fi, name):
+        return False
+    if fi.name == "nested_parse" and name == "match_titles":
+        return True
+    if depth >= 2:
+        return False
+    callers = _callers_by_name(corpus, fi.name)
+    if not callers:
+        return False
+    idx = fi.params.index(name) - (1 if fi.params and fi.params[0] in ("self", "cls") else 0)
+    for cf, call in callers:
+        arg = kwarg(call, name)
+        if arg is None and 0 <= idx < len(call.args) and not any(isinstance(a, ast.Starred) for a in call.args):
+            arg = call.args[idx]
+        if arg is None:
+            return False
+        if isinstance(arg, ast.Constant) and arg.value in (False, None):
+            continue
+        if not (isinstance(arg, ast.Name) and _is_match_titles_flag(corpus, cf, arg.id, depth + 1)):
+            return False
+    return True
+
+
 @rule("C05.R4")
 def r4_save_restore(corpus: Corpus, rep: Report, tier: str):
     rep.rule("C05.R4", "nested renders save and restore heading offset / level map (by copy) / temp root under one guard; temp root only for match_titles; include passes heading-offset; level = tag digit + offset")
@@ -1675,34 +1927,55 @@ def r4_save_restore(corpus: Corpus, rep: Report, tier: str):
         tr = kwarg(c, "temp_root_node") or (c.args[pidx["temp_root_node"]] if len(c.args) > pidx.get("temp_root_node", 99) else None)
         ho = kwarg(c, "heading_offset") or (c.args[pidx["heading_offset"]] if len(c.args) > pidx.get("heading_offset", 99) else None)
         site = fi.module.site(c)
+        if isinstance(tr, ast.Name) and tr.id not in fi.params:
+            d_ = single_def(fi, tr.id)
+            if isinstance(d_, ast.IfExp) or (isinstance(d_, ast.Constant) and d_.value is None):
+                tr = d_
         if tr is not None and not (isinstance(tr, ast.Constant) and tr.value is None):
             n_root += 1
-            k = f"{fi.fq}|temp_root_node only for match_titles"
-            if not (fi.module.name.endswith(".mocking") and fi.qualname == "MockState.nested_parse"):
-                rep.error("C05.R4", f"{site}: {fi.qualname} passes temp_root_node: a caller other than MockState.nested_parse is not understood")
-                continue
-            ctx_nodes = [w.items[0].context_expr for w in fi.local_nodes() if isinstance(w, ast.With) and any(c is x for x in ast.walk(w))]
+            is_state_api = fi.module.name.endswith(".mocking") and fi.qualname == "MockState.nested_parse"
+            k = f"{fi.fq}|temp_root_node only for match_titles" + ("" if is_state_api else f"|{short(c, 60)}")
             ctx_arg = None
-            for ce in ctx_nodes:
-                if isinstance(ce, ast.Call) and isinstance(ce.func, ast.Attribute) and ce.func.attr == "current_node_context" and ce.args:
-                    ctx_arg = unparse(ce.args[0])
-            ok_shape = None
+            for w in fi.local_nodes():
+                if isinstance(w, ast.With) and any(c is x for x in ast.walk(w)):
+                    for it in w.items:
+                        ce = it.context_expr
+                        if isinstance(ce, ast.Call) and isinstance(ce.func, ast.Attribute) and ce.func.attr == "current_node_context" and ce.args:
+                            ctx_arg = unparse(ce.args[0])
+            gated = None
             if isinstance(tr, ast.IfExp):
-                t, b, o = tr.test, tr.body, tr.orelse
-                neg = False
+                t, b_, o_ = tr.test, tr.body, tr.orelse
                 if isinstance(t, ast.UnaryOp) and isinstance(t.op, ast.Not):
-                    t, neg = t.operand, True
-                    b, o = o, b
-                if isinstance(t, ast.Name) and t.id == "match_titles" and "match_titles" in fi.params and not name_assignments(fi, "match_titles"):
-                    if isinstance(o, ast.Constant) and o.value is None:
-                        ok_shape = unparse(b)
-            if ok_shape is None:
-                if isinstance(tr, ast.Name) and tr.id in fi.params or (ctx_arg and unparse(tr) == ctx_arg):
-                    rep.violation("C05.R4", k, site, f"MockState.nested_parse passes temp_root_node={unparse(tr)} regardless of match_titles: headings in every directive body open sections")
+                    t = t.operand
+                    b_, o_ = o_, b_
+                if isinstance(o_, ast.Constant) and o_.value is None:
+                    if isinstance(t, ast.Name) and _is_match_titles_flag(corpus, fi, t.id):
+                        gated = unparse(b_)
+                    else:
+                        raise Unsupported(f"{site}: temp_root_node is conditional on `{short(t, 40)}`, which is not traced to a directive's match_titles flag")
                 else:
-                    rep.error("C05.R4", f"{site}: temp_root_node={short(tr, 40)} is not `<node> if match_titles else None`")
-            elif ctx_arg is None or ok_shape != ctx_arg:
-                rep.violation("C05.R4", k, site, f"the temp root `{ok_shape}` is not the node made current for the nested parse (`{ctx_arg}`): render_heading compares current_node with the temp root")
+                    raise Unsupported(f"{site}: temp_root_node={short(tr, 40)} is not `<node> if <match_titles> else None`")
+            if gated is None and isinstance(tr, ast.Name) and tr.id in fi.params and ctx_arg is None and fi.cls is not None:
+                # a wrapper that forwards its own parameter: judged through its callers
+                pidx2 = fi.params.index(tr.id) - (1 if fi.params[0] == "self" else 0)
+                passing = [cc for _cf, cc in _callers_by_name(corpus, fi.name) if kwarg(cc, tr.id) is not None or len(cc.args) > pidx2]
+                if passing:
+                    raise Unsupported(f"{site}: temp_root_node is forwarded from parameter `{tr.id}` of {fi.qualname}, which callers set: chain not followed")
+                rep.ok("C05.R4", k, site, f"forwards its parameter `{tr.id}`, which no caller sets")
+            elif gated is None:
+                if ctx_arg is not None and unparse(tr) == ctx_arg:
+                    rep.violation("C05.R4", k, site, f"{fi.qualname} passes temp_root_node={unparse(tr)} regardless of match_titles: headings directly in this container open sections")
+                else:
+                    rep.violation(
+                        "C05.R4",
+                        k,
+                        site,
+                        f"{fi.qualname} passes temp_root_node={unparse(tr)} unconditionally (no match_titles request of a directive) and not inside current_node_context({unparse(tr)}): "
+                        "the level map is put back after this nested render while current_node is not, so the sections its headings open are forgotten as open headings "
+                        "(the next heading is nested as if they had never been rendered)",
+                    )
+            elif ctx_arg is None or gated != ctx_arg:
+                rep.violation("C05.R4", k, site, f"the temp root `{gated}` is not the node made current for the nested parse (`{ctx_arg}`): render_heading compares current_node with the temp root")
             else:
                 rep.ok("C05.R4", k, site, f"temp_root_node={unparse(tr)} inside current_node_context({ctx_arg})")
         else:
@@ -1731,30 +2004,23 @@ def r4_save_restore(corpus: Corpus, rep: Report, tier: str):
                 rep.error("C05.R4", f"{site}: heading_offset={short(ho, 50)} not traced to options['heading-offset']")
         elif ho is not None:
             rep.error("C05.R4", f"{site}: {fi.qualname} passes heading_offset: caller not understood")
-    if n_root != 1:
-        rep.error("C05.R4", f"expected exactly one caller passing temp_root_node (MockState.nested_parse), found {n_root}")
     if n_off != 1:
         rep.error("C05.R4", f"expected the include mock to call nested_render_text once, found {n_off}")
 
-    # level derivation: tag digit + offset
-    ucalls = method_calls(rh.local_nodes(), UPDATE)
-    lvl = _update_args(ucalls[0])[1] if ucalls else None
-    ldef = single_def(rh, lvl.id) if isinstance(lvl, ast.Name) else lvl
+    # level derivation: tag digit + offset (the value the section path registers; the rubric's is compared with it by R2)
+    hc = _heading_code(corpus)
+    uf, ucall = hc.update_call()
+    lts = hc.terms(_update_args(ucall)[1], uf, get_cfg(uf).stmt_of(ucall))
     k = f"{rh.fq}|level = tag digit + heading offset"
-    if ldef is None:
-        raise Unsupported("the heading level of render_heading is not a single-assignment local")
-
-    is_tag_digit = _is_tag_digit
-
-    if isinstance(ldef, ast.BinOp) and ((is_tag_digit(ldef.left) and is_self_attr(ldef.right, OFFSET)) or (is_tag_digit(ldef.right) and is_self_attr(ldef.left, OFFSET))):
-        if isinstance(ldef.op, ast.Add):
-            rep.ok("C05.R4", k, base.site(ldef), unparse(ldef))
-        else:
-            rep.violation("C05.R4", k, base.site(ldef), f"the heading level is `{unparse(ldef)}`: the include's heading offset must be added to the tag level")
-    elif is_tag_digit(ldef):
-        rep.violation("C05.R4", k, base.site(ldef), "the heading level ignores the heading offset: headings of an include with :heading-offset: are not shifted")
+    lsite = uf.module.site(ucall)
+    if lts == [(1, "OFFSET"), (1, "TAG")]:
+        rep.ok("C05.R4", k, lsite, terms_text(lts))
+    elif lts == [(-1, "OFFSET"), (1, "TAG")]:
+        rep.violation("C05.R4", k, lsite, f"the heading level is `{terms_text(lts)}`: the include's heading offset must be added to the tag level")
+    elif lts == [(1, "TAG")]:
+        rep.violation("C05.R4", k, lsite, "the heading level ignores the heading offset: headings of an include with :heading-offset: are not shifted")
     else:
-        raise Unsupported(f"heading level `{short(ldef, 50)}` is not int(token.tag[1]) + self.{OFFSET}")
+        raise Unsupported(f"heading level `{terms_text(lts)}` is not int(token.tag[1]) + self.{OFFSET}")
     # every other change of the offset / temp root during a render must be its own save/restore pair
     _judge_foreign_writers(corpus, rep, "C05.R4", "offset", {cm.fq})
     _judge_foreign_writers(corpus, rep, "C05.R4", "root", {cm.fq})
@@ -1964,6 +2230,37 @@ def mutants(corpus: Corpus):
     ind = " " * last.col_offset
     add("c05-nested-parse-clears-temp-root", "C05.R4", mk, last, seg(mk, last) + f"\n{ind}self._renderer.md_env['{TEMP_ROOT_KEY}'] = None", expect="outside the save/restore pairing")
     add("c05-nested-parse-resets-level-map", "C05.R3", mk, last, seg(mk, last) + f"\n{ind}self._renderer.{LEVEL_MAP} = {{0: self.document}}", expect="outside the save/restore pairing")
+    # class: a temp root passed without a directive's match_titles request
+    def add_kw(mid, mod, fi_, kwtext, expect):
+        c_ = find_node(fi_, lambda n: isinstance(n, ast.Call) and isinstance(n.func, ast.Attribute) and n.func.attr == "nested_render_text" and kwarg(n, "temp_root_node") is None and len(n.args) <= 2 and kwarg(n, "inline") is None)
+        if c_ is None:
+            out.append((mid, "no plain nested_render_text call in " + fi_.qualname))
+            return
+        text = seg(mod, c_).rstrip()
+        assert text.endswith(")")
+        inner = text[:-1].rstrip()
+        sep = "" if inner.endswith(",") else ","
+        add(mid, "C05.R4", mod, c_, f"{inner}{sep} {kwtext})", expect=expect)
+
+    add_kw("c05-front-matter-title-under-temp-root", base, base.func(f"{RENDERER}.render_front_matter"), "temp_root_node=self.document", "temp_root_node only for match_titles")
+    add_kw("c05-div-allows-sections", base, base.func(f"{RENDERER}.render_colon_fence"), "temp_root_node=container", "temp_root_node only for match_titles")
+    add_kw("c05-include-under-temp-root", mk, inc, "temp_root_node=self.renderer.current_node", "temp_root_node only for match_titles")
+    # class: the heading level is replaced inside the level-state update before it is used
+    for mid, anchor in (("c05-level-rebound-before-store", store), ("c05-level-rebound-before-prune", prune)):
+        if anchor is not None:
+            ind = " " * anchor.col_offset
+            add(mid, "C05.R3", base, anchor, f"{upd.params[2]} = parent_level + 1\n{ind}" + seg(base, anchor), expect="heading level replaced before use")
+    # class: the offset reaches only one of the two paths
+    sec_ctor = find_node(rh, lambda n: isinstance(n, ast.Assign) and isinstance(n.value, ast.Call) and resolves_to(n.value, rh, SECTION))
+    lvl_def = find_node(rh, lambda n: isinstance(n, ast.Assign) and isinstance(n.value, ast.BinOp) and is_self_attr(n.value.right, OFFSET) and _is_tag_digit(n.value.left))
+    if sec_ctor is not None and lvl_def is not None:
+        ind = " " * sec_ctor.col_offset
+        nm = lvl_def.targets[0].id
+        out.append(Mutant("c05-offset-added-after-rubric-branch", "C05.R2", base.rel,
+                          splice(splice(base.src, sec_ctor, f"{nm} += self.{OFFSET}\n{ind}" + seg(base, sec_ctor)), lvl_def.value, seg(base, lvl_def.value.left)),
+                          expect="rubric level="))
+    else:
+        out.append(("c05-offset-added-after-rubric-branch", "level definition / section construction not found in render_heading"))
     lvl = find_node(rh, lambda n: isinstance(n, ast.BinOp) and isinstance(n.op, ast.Add) and (is_self_attr(n.right, OFFSET) or is_self_attr(n.left, OFFSET)))
     if lvl is not None:
         add("c05-offset-subtracted", "C05.R4", base, lvl, f"{seg(base, lvl.left)} - {seg(base, lvl.right)}", expect="level = tag digit")
